@@ -1518,8 +1518,63 @@ fn resolve_types_and_aliases(
     (types_report, aliases_report)
 }
 
+/// Parameters, env vars and parties all end up as keys of one flat, lower-cased argument map:
+/// two of them that are visible to the same tx must not share a key.
+fn argument_key_conflicts(ast: &Program) -> AnalyzeReport {
+    let mut errors = Vec::new();
+
+    // (key, spelling, is env var)
+    let mut globals: Vec<(String, &str, bool)> = Vec::new();
+
+    let env_vars = ast
+        .env
+        .iter()
+        .flat_map(|env| env.fields.iter())
+        .map(|field| (field.name.as_str(), true));
+
+    let parties = ast
+        .parties
+        .iter()
+        .map(|party| (party.name.value.as_str(), false));
+
+    for (name, is_env) in env_vars.chain(parties) {
+        let key = name.to_lowercase();
+
+        if globals.iter().any(|(other, _, _)| *other == key) {
+            errors.push(Error::DuplicateDefinition(name.to_string()));
+        }
+
+        globals.push((key, name, is_env));
+    }
+
+    for tx in ast.txs.iter() {
+        let mut seen: Vec<String> = Vec::new();
+
+        for param in tx.parameters.parameters.iter() {
+            let name = param.name.value.as_str();
+            let key = name.to_lowercase();
+
+            // a parameter may shadow an env var of the very same name: explicit arguments take
+            // precedence over the environment
+            let clashes = globals
+                .iter()
+                .any(|(other, spelling, is_env)| *other == key && !(*is_env && *spelling == name));
+
+            if clashes || seen.contains(&key) {
+                errors.push(Error::DuplicateDefinition(name.to_string()));
+            }
+
+            seen.push(key);
+        }
+    }
+
+    AnalyzeReport::from(errors)
+}
+
 impl Analyzable for Program {
     fn analyze(&mut self, parent: Option<Rc<Scope>>) -> AnalyzeReport {
+        let argument_keys = argument_key_conflicts(self);
+
         let mut scope = Scope::new(parent);
 
         if let Some(env) = self.env.as_ref() {
@@ -1567,7 +1622,7 @@ impl Analyzable for Program {
 
         let txs = self.txs.analyze(self.scope.clone());
 
-        parties + policies + types + aliases + txs + assets
+        argument_keys + parties + policies + types + aliases + txs + assets
     }
 
     fn is_resolved(&self) -> bool {
